@@ -123,10 +123,69 @@ pub fn call_entry(entry: &str, input: &[u8]) -> Result<String, String> {
     }
 }
 
+// ---- termination of library calls (machinery in crate::isolate)
+
+pub use crate::isolate::{isolated_call, Iso, LIB_CPU_LIMIT_S, LIB_MEM_LIMIT};
+
+/// The child side of `isolated_call` (`hdv lib-call <entry>`, input on stdin).
+pub fn lib_call_main(entry: &str) -> i32 {
+    use std::io::Read;
+    let mut input = vec![];
+    let _ = std::io::stdin().read_to_end(&mut input);
+    match call_entry(entry, &input) {
+        Ok(d) => {
+            println!("OK {}", crate::engine::truncate(&d, 200));
+            0
+        }
+        Err(p) => {
+            println!("PANIC {p}");
+            3
+        }
+    }
+}
+
+fn termination_failure(entry: &str, origin: &str, input: &[u8], iso: &Iso) -> Option<crate::engine::Failure> {
+    let what = crate::isolate::describe_nontermination(iso)?;
+    Some(crate::engine::Failure {
+        expected: "a result or an ordinary error within the CPU and memory budget".into(),
+        observed: what,
+        note: format!("entry point {entry} does not terminate on {origin} input ({} bytes): {:?}", input.len(), crate::engine::truncate(&String::from_utf8_lossy(input), 600)),
+        known: None,
+    })
+}
+
+/// C17's handler for a confirmed non-terminating library call: report the violation and end the run
+/// (the stuck thread cannot be recovered).
+fn on_nontermination(info: &crate::isolate::Info, iso: &Iso) -> ! {
+    let input = crate::refimpl::unhex(&info.input_hex).unwrap_or_default();
+    let case = LibCase { entry: info.entry.clone(), input_hex: info.input_hex.clone(), origin: info.origin.clone() };
+    let f = termination_failure(&info.entry, &info.origin, &input, iso).expect("non-termination");
+    let cj = serde_json::to_value(&case).unwrap();
+    crate::isolate::emergency_exit("C17", "library", &cj, Some(&f))
+}
+
+/// Replay (and fuzz-artifact) judgement: always in a fresh process under the limits.
+fn judge_lib_isolated(c: &LibCase, _cls: &mut Classifier) -> Verdict {
+    let input = crate::refimpl::unhex(&c.input_hex).unwrap_or_default();
+    let iso = isolated_call(&c.entry, &input);
+    if let Some(f) = termination_failure(&c.entry, &c.origin, &input, &iso) {
+        return Err(f);
+    }
+    match iso {
+        Iso::Panicked(p) => fail(
+            "a result or an ordinary error",
+            p,
+            format!("entry point {} panicked on {} input ({} bytes): {:?}", c.entry, c.origin, input.len(), crate::engine::truncate(&String::from_utf8_lossy(&input), 600)),
+        ),
+        Iso::Other(o) => fail("a result or an ordinary error", o, format!("entry point {} ended abnormally in a fresh process", c.entry)),
+        _ => Ok(()),
+    }
+}
+
 fn judge_lib(c: &LibCase, cls: &mut Classifier) -> Verdict {
     let input = crate::refimpl::unhex(&c.input_hex).unwrap_or_default();
     let start = Instant::now();
-    let r = call_entry(&c.entry, &input);
+    let r = crate::isolate::inflight(&c.entry, &input, &c.origin, || call_entry(&c.entry, &input));
     let took = start.elapsed();
     match r {
         Err(p) => {
@@ -551,7 +610,16 @@ fn gen_cli(tape: Vec<u8>) -> CliCase {
                 push(&mut args, "--vanity-prefix");
                 args.push(gen_value(&mut u, "prefix"));
                 push(&mut args, "-j");
-                args.push(u.below(65).to_string().into_bytes());
+                let j = match u.below(10) {
+                    0 | 1 => 0,
+                    2 | 3 => 1,
+                    4 => 2,
+                    5 => 3,
+                    6 => 16,
+                    7 => 64,
+                    _ => u.below(65),
+                };
+                args.push(j.to_string().into_bytes());
                 if u.ratio(1, 3) {
                     push(&mut args, "--vanity-password");
                     args.push(gen_value(&mut u, "password"));
@@ -655,9 +723,10 @@ fn judge_cli(c: &CliCase, cls: &mut Classifier) -> Verdict {
 // ================================================================= layer 2: corpus replay
 
 pub fn run(ctx: &mut Ctx) {
-    ctx.rule = "layer 1: every library entry point (mnemonic parse/print/seed, Mnemonic::random, path parse + derive, Path::for_index, PrivateKey::new, signature parse/print, digest parse, transaction parse + digest + encode with both parities, typed-data parse, message digest) under catch_unwind on valid inputs (the other properties' generators, word counts 0..40, Unicode white space, type strings with up to 64 array suffixes, JSON nesting up to 128), mutated-valid inputs (byte/token insert-delete-replace-duplicate, number-boundary substitution, invalid UTF-8) and random bytes; layer 2: replay of the committed libFuzzer corpora (campaigns in thorough); layer 3: generated argv/env/stdin for every subcommand and option (indices around 2^31/2^32/2^64, -n 0..40, -j 0..64, vanity prefixes of <= 3 digits in any case and non-hex text, non-UTF-8 arguments, garbage files and stdin). Oracle: result or ordinary error: no panic in-process; exit status 0, 2 or 255 without 'panicked at' on stderr and a message on error for the CLI; watchdog expiry is inconclusive. Non-trivial: all; distinct by (entry point, input).".into();
+    ctx.rule = "layer 1: every library entry point (mnemonic parse/print/seed, Mnemonic::random, path parse + derive, Path::for_index, PrivateKey::new, signature parse/print, digest parse, transaction parse + digest + encode with both parities, typed-data parse, message digest) under catch_unwind on valid inputs (the other properties' generators, word counts 0..40, Unicode white space, type strings with up to 64 array suffixes, JSON nesting up to 128), mutated-valid inputs (byte/token insert-delete-replace-duplicate, number-boundary substitution, invalid UTF-8) and random bytes; layer 2: replay of the committed libFuzzer corpora (campaigns in thorough); layer 3: generated argv/env/stdin for every subcommand and option (indices around 2^31/2^32/2^64, -n 0..40, -j 0..64, vanity prefixes of <= 3 digits in any case and non-hex text, non-UTF-8 arguments, garbage files and stdin). Oracle: result or ordinary error: no panic in-process, and a library call that runs for more than 5 s is re-executed in a fresh process under a 20 CPU-second / 8 GiB limit (exceeding it is unbounded computation; CPU time is independent of machine load); CLI: exit status 0, 2 or 255 without 'panicked at' on stderr and a message on error for the CLI; a run whose threads are all asleep without CPU progress for 15 s (deadlock) or that consumes more than 300 CPU-seconds is killed and reported as a hang; a plain wall-clock watchdog expiry (60 s) is inconclusive. Non-trivial: all; distinct by (entry point, input).".into();
     ctx.assumptions = vec!["Signature::v is exercised through transaction JSON only; Signature::from_parts (documented to panic on invalid parts) is not called with invalid parts".into()];
     set_cli(ctx.cli.clone(), ctx.cli_plain.clone(), ctx.root.clone());
+    crate::isolate::set_handler(on_nontermination);
     ctx.replay_known_and_regressions(&replay);
     let t = ctx.tier;
     ctx.run_prop("library", t.pick(200_000, 5_000_000), || crate::gen::tape(1600).prop_map(gen_lib), judge_lib);
@@ -699,7 +768,7 @@ pub fn run(ctx: &mut Ctx) {
 
 pub fn replay(sub: &str, case: &Value) -> Option<Verdict> {
     match sub {
-        "library" | "corpus" | "fuzz" => Some(replay_as::<LibCase>(case, judge_lib)),
+        "library" | "corpus" | "fuzz" => Some(replay_as::<LibCase>(case, judge_lib_isolated)),
         "cli" | "cli-plain" => Some(replay_as::<CliCase>(case, judge_cli)),
         _ => None,
     }
